@@ -46,6 +46,32 @@ CONTRACTS.append(Contract(
     note="nonlinear: discharged in isolation (the caller sees // with a symbolic divisor as uninterpreted)",
 ))
 
+CONTRACTS.append(Contract(
+    MODULE, "lemma_divmod",
+    params={"d": T.Int, "b": T.Int},
+    requires=["b >= 1", "d >= 0"],
+    ensures=[("euclid", "d == b * (d // b) + d % b"), ("range", "0 <= d % b and d % b < b"), ("quot", "d // b >= 0"), ("quot-le", "d // b <= d")],
+    note="nonlinear: discharged in isolation",
+))
+CONTRACTS.append(Contract(
+    MODULE, "lemma_psum_const",
+    params={"xs": SI, "n": T.Int, "c": T.Int},
+    requires=["all(xs[q] == c for q in range(n))", "0 <= n"],
+    ensures=[("const", "psum(xs, n) == c * n")],
+    loops={0: dict(invariant=["0 <= k", "k <= n", "psum(xs, k) == c * k"],
+                   begin=["assert_(psum(xs, k + 1) == psum(xs, k) + xs[k], 'unfold')"])},
+))
+CONTRACTS.append(Contract(
+    MODULE, "lemma_tiling",
+    params={"b": SI, "j": T.Int},
+    locals={"i": T.Int},
+    returns=T.Int,
+    requires=["len(b) >= 2", "all(b[q] <= b[q + 1] for q in range(len(b) - 1))", "b[0] <= j", "j < b[len(b) - 1]"],
+    ensures=[("found", "0 <= result and result < len(b) - 1 and b[result] <= j and j < b[result + 1]")],
+    loops={0: dict(invariant=["0 <= i", "i < len(b) - 1", "b[i] <= j"], decreases="len(b) - i")},
+    note="every position lies in exactly one [b[i], b[i+1]): boundaries tile the range (existence; uniqueness is monotonicity)",
+))
+
 LEMMA_FUNCS = {c.name: FuncVal(c.name, "contract", c) for c in CONTRACTS}
 
 
